@@ -2,7 +2,7 @@
     tools/checks/c06.py and c07.py parse this output to name what broke. *)
 
 From Coq Require Import String List NArith Bool.
-From Nexus Require Import Conc.SkelTypes Conc.Skeleton Conc.Stall Conc.YieldRetry gen.GenSkeleton.
+From Nexus Require Import Conc.SkelTypes Conc.Skeleton Conc.Stall Conc.YieldRetry Conc.CancelModel gen.GenSkeleton.
 Import ListNotations.
 Open Scope string_scope.
 
@@ -19,6 +19,8 @@ Definition report : list (string * bool) :=
     ("skeleton_conforms", skeleton_conforms gen_funcs gen_submitters);
     ("closable_senders_covered", closable_senders_covered gen_funcs);
     ("invocation_drops_cancel_timer", invocation_drops_cancel_timer gen_invocation_drops);
+    ("yield_stops_timer_before_retry", yield_stops_timer_before_retry gen_yield_stops_timer_before_retry);
+    ("cancel_waits_only_if_interrupt_sent", cancel_waits_only_if_interrupt_sent gen_cancel_waits_only_if_interrupt_sent);
     ("yield_retry_keeps_invocation", yield_retry_keeps_invocation gen_yield_retry_keeps_invocation) ].
 
 Definition REPORT := report.
@@ -52,6 +54,9 @@ Eval vm_compute in RETRY_TOTAL_MS.
 
 Definition YIELD_RESUME_TABLE := yield_resume_table gen_yield_retry_delay_ms gen_send_result_deadline_ms.
 Eval vm_compute in YIELD_RESUME_TABLE.
+
+Definition CANCEL_TABLE := cancel_table.
+Eval vm_compute in CANCEL_TABLE.
 
 Definition BAD_INVOCATION_DROPS := bad_invocation_drops gen_invocation_drops.
 Eval vm_compute in BAD_INVOCATION_DROPS.
